@@ -6,6 +6,26 @@ import os
 VERIF = os.path.dirname(os.path.dirname(os.path.abspath(__file__)))
 
 CHECKS = {
+    "C08": dict(
+        technique="sense positions and a curated T10 ASC/ASCQ text table in TLA+ (T10Sense.tla, self-checked by TLC); every "
+                  "probed sense buffer is one event judged by Trace_Sense",
+        text="Totality (construct, str(), print_data() never raise) and positions of response code / valid / key / ASC / "
+             "ASCQ for all four formats, unknown response codes, all 16 keys, all 65536 pairs (thorough; boundary subset "
+             "+ sample in quick), every length 1..252, flag bits, through SCSICheckCondition and both device classes.",
+        note="Wording judged only on 97 curated assignments after normalisation; other code points for totality and "
+             "numbers.",
+        ref="6 C08"),
+    "C18": dict(
+        technique="EnumSM.tla (ordered partial maps + dictionary model, two enumerations) model-checked by TLC; all "
+                  "operation sequences to a depth and random long histories on real Enum objects validated step by step "
+                  "by Trace_EnumSM",
+        text="Agreement with a dictionary, reverse-lookup soundness (first supplied name, equal-but-distinct values), "
+             "refusals changing nothing and no cross-talk are invariants/action properties of the spec; the real class is "
+             "driven through every sequence up to length 3 (4) for six value kinds incl. nested dicts and OpCode objects, "
+             "with a bystander enumeration observed after every step.",
+        note="Names restricted to identifiers not starting with '__' and not shadowing the container API; no callable "
+             "values.",
+        ref="6 C18"),
     "C09": dict(
         technique="object-level behaviours of Command.tla (construct/probe/discard over live objects, action property "
                   "Isolation) instantiated with all ordered class pairs; thread schedules enumerated by TLC from Sched.tla "
